@@ -52,6 +52,7 @@ package asp
 //@ spec listlike(x pyObject) bool = dyntype(x, pyList) || dyntype(x, pyFrozenList)
 //@ func asList
 //@   modifies nothing
+//@   aliases result0 obj
 //@   ensures exactly_the_listlike [C18]: result1 == listlike(obj)
 //@   ensures items_of_a_list [C18]: dyntype(obj, pyList) ==> result0 == unbox(obj, pyList)
 //@   ensures items_of_a_frozen_list [C18]: dyntype(obj, pyFrozenList) ==> result0 == unbox(obj, pyFrozenList).pyList
@@ -324,3 +325,11 @@ package asp
 //@   property C19
 //@   opt inline=off
 //@   invariant "loop#1" found_inside: idx == -1 || (0 <= idx && idx < len(s))
+
+// d | other builds a NEW dict: the result is never the left operand's own map (for a frozen dict the promoted
+// method receives the inner map, and handing it back would let the caller write into the shared, frozen value).
+//@ func (pyDict).Operator
+//@   opt nopanic=off
+//@   opt panics=allowed
+//@   opt inline=off
+//@   ensures union_is_a_new_dict [C17 C16]: operator == Union ==> dyntype(result, pyDict) && unbox(result, pyDict) != d
